@@ -149,7 +149,10 @@ fn gen_cycle(r: &mut Rng, names: &[&str], salt: u64) -> Vec<String> {
     let p = format!("/{}", r.pick(names));
     let n1 = *r.pick(SIZES);
     let n2 = *r.pick(SIZES);
-    match r.below(6) {
+    match r.below(8) {
+        // (6, 7: the cycle includes a reopen — the state `open` rebuilds must reuse the same space)
+        6 => vec![format!("put {} {}", enc(&p), hex(&pattern(n1, salt))), format!("rm {}", enc(&p)), format!("reopen {}", if r.chance(1, 2) { "strict" } else { "permissive" })],
+        7 => vec![format!("put {} {}", enc(&p), hex(&pattern(n1, salt))), "reopen permissive".to_string(), format!("put {} {}", enc(&p), hex(&pattern(n2, salt + 1))), format!("rm {}", enc(&p))],
         0 => vec![format!("put {} {}", enc(&p), hex(&pattern(n1, salt))), format!("rm {}", enc(&p))],
         1 => vec![format!("put {} {}", enc(&p), hex(&pattern(n1, salt))), format!("put {} {}", enc(&p), hex(&pattern(n2, salt + 1))), format!("rm {}", enc(&p))],
         2 => vec![format!("hcreate 7 {}", enc(&p)), format!("hwrite 7 {}", hex(&pattern(n1, salt))), format!("hsetlen 7 {}", n2), "hclose 7".into(), format!("rm {}", enc(&p))],
@@ -226,7 +229,10 @@ pub fn campaign(seed: u64, count: u64, max_ops: u64, cfg: &PhysCfg, ops_path: &s
                 let ids: Vec<u32> = open.keys().cloned().collect();
                 let w = r.below(100);
                 if cfg.cycles && w < 8 && open.get(&7).is_none() {
-                    let body = gen_cycle(&mut r, &cyc, h * 131 + done);
+                    let mut body = gen_cycle(&mut r, &cyc, h * 131 + done);
+                    if !open.is_empty() && body.iter().any(|l| l.starts_with("reopen")) {
+                        body.retain(|l| !l.starts_with("reopen"));
+                    }
                     pending.push("cyc begin".into());
                     for _ in 0..(3 + r.below(2)) {
                         pending.extend(body.iter().cloned());
@@ -494,7 +500,7 @@ pub fn layouts(seed: u64, count: u64, outdir: &str, big: bool, ops_path: Option<
             let parent = if !storages.is_empty() && r.chance(1, 3) { r.pick(&storages).clone() } else { String::new() };
             let line = match r.below(10) {
                 0..=3 => format!("put {} {}", enc(&format!("{}/{}", parent, r.pick(&pool))), hex(&pattern(*r.pick(SIZES), step))),
-                4 | 5 if !streams.is_empty() => format!("rm {}", enc(&r.pick(&streams)[..])),
+                4 | 5 | 9 if !streams.is_empty() => format!("rm {}", enc(&r.pick(&streams)[..])),
                 6 => format!("mkdir {}", enc(&format!("{}/{}", parent, r.pick(&pool)))),
                 7 if !storages.is_empty() => format!("rmall {}", enc(&r.pick(&storages)[..])),
                 8 if !streams.is_empty() => format!("get {}", enc(&r.pick(&streams)[..])),
